@@ -176,7 +176,7 @@ theorem C12_udp_terminates (c : UdpCase) (hwf : ¬ (c.utail = .hold ∧ c.ttail 
   have h := udp_returned c hwf σ
   have hd : (udpRun .repaired c (udpComplete c σ)).dec.done = true := by
     have := h.1; simp only [UdpSt.returned, Bool.and_eq_true] at this; exact this.2
-  exact ⟨h.1, (h.2.dec.fin ((Dec.done_iff _).mp hd)).symm⟩
+  exact ⟨h.1, (h.2.1.dec.fin ((Dec.done_iff _).mp hd)).symm⟩
 
 /-- **Main UDP theorem.** For all datagram/tick sequences on the UDP side (the flush schedule), all
 tunnel streams that are the encoding of well-formed datagrams cut at ANY offset (or followed by
@@ -191,7 +191,31 @@ theorem C12_udp (sc : UdpSpecCase) (chunks : List Bytes) (hflat : chunks.flatten
     holdsUdp sc (udpObs (udpRun .repaired ⟨sc.uevs, sc.utail, chunks, sc.ttail, sc.tfused⟩
       (udpComplete ⟨sc.uevs, sc.utail, chunks, sc.ttail, sc.tfused⟩ σ))) = true := by
   have h := udp_returned ⟨sc.uevs, sc.utail, chunks, sc.ttail, sc.tfused⟩ hwf σ
-  exact holdsUdp_of sc chunks hflat _ h.2 h.1
+  exact holdsUdp_of sc chunks hflat _ h.2.1 h.1
+
+/-- **Asynchronous local socket** (`mapping.UDPVirtualConn`, the `localConn` that `tunnel.runDataCopy` hands to
+`iocopy.UDP`): its `Write` queues a private copy and a send loop delivers it later. For all the inputs of
+`C12_udp` and EVERY schedule that additionally delays the sends arbitrarily against the relay's further reads
+and buffer compactions (tokens `s`), the local application receives exactly the datagrams complete before the
+cut — same boundaries, contents, order. -/
+theorem C12_udp_async_socket (sc : UdpSpecCase) (chunks : List Bytes) (hflat : chunks.flatten = sc.stream)
+    (hwf : ¬ (sc.utail = .hold ∧ sc.ttail = .hold)) (σ : List UTok) :
+    holdsUdp sc (udpObsV (udpRun .repaired ⟨sc.uevs, sc.utail, chunks, sc.ttail, sc.tfused⟩
+      (udpComplete ⟨sc.uevs, sc.utail, chunks, sc.ttail, sc.tfused⟩ σ))) = true := by
+  have h := udp_returned ⟨sc.uevs, sc.utail, chunks, sc.ttail, sc.tfused⟩ hwf σ
+  exact holdsUdpV_of sc chunks hflat _ h.2.1 h.1 h.2.2
+
+/-- What has been sent is, at every moment of every run, a prefix of what the relay wrote, unaffected by
+anything the relay does to its read buffer afterwards: sends never change `dec.out`, the relay never changes
+what was queued. In the code: `UDPVirtualConn.Write` copies (`make` + `copy`) before it queues — pinned here. -/
+theorem C12_udp_async_queue_is_private (c : UdpCase) (σ : List UTok) :
+    (udpObsV (udpRun .repaired c σ)).udp <+: (udpRun .repaired c σ).dec.out ∧
+    (udpStep .repaired c (udpRun .repaired c σ) .s).dec = (udpRun .repaired c σ).dec ∧
+    Gen.Skel.UDPVirtualConn_Write = ["make", "copy", "updateLastActive"] ∧
+    Gen.Skel.UDPVirtualConn_writeLoop = ["listener.WriteTo"] := by
+  refine ⟨List.take_prefix _ _, ?_, by decide, by decide⟩
+  simp only [udpStep]
+  split <;> rfl
 
 /-- The tunnel stream never depends on where the flush ticker fired, on batch boundaries or on how
 long a Write took: at any moment of any run, bytes delivered ++ batch ++ (record of a datagram the
@@ -247,6 +271,12 @@ theorem C12_udp_write_region_stable (c : UdpCase) (σ : List UTok) (w : Wip)
     cases s.decHeld with
     | none => exact ⟨rfl, rfl, hw⟩
     | some d => exact ⟨rfl, rfl, hw⟩
+  | s =>
+    simp only [udpStep]
+    split
+    · exact ⟨rfl, rfl, hw⟩
+    · exact ⟨rfl, rfl, hw⟩
+  | sa => exact ⟨rfl, rfl, hw⟩
 
 /-- **The batch buffer never overflows**: between events the batch is at most half the buffer, so
 the next maximal record (2 + 65536 bytes) always fits — `batchBuf[batchPos+2:]` stays in range —
@@ -381,6 +411,13 @@ example :
     recvAll 12 ⟨[[0, 1, 97, 0, 0, 0, 2, 98], [99]], .eof⟩ = ⟨[[97], [], [98, 99]], .len⟩ ∧
     [[0, 1, 97, 0, 0, 0, 2, 98], [99]].flatten = (([[97], [], [98, 99]] : List Bytes).map sendPacket).flatten.flatten.take 100 ∧
     holdsS5 [[97], [], [98, 99]] 100 [0, 1, 97, 0, 0, 0, 2, 98, 99] ⟨[[97]], .len⟩ = false := by decide
+
+/-- Asynchronous socket: the first read ends inside the second record (so the window is compacted over the bytes
+just handed to `Write`), the sends happen only after the next read: both datagrams arrive intact. -/
+example :
+    (udpObsV (udpRun .repaired ⟨[], .hold, [[0, 1, 65, 0, 2, 66], [67]], .eof, false⟩
+      (udpComplete ⟨[], .hold, [[0, 1, 65, 0, 2, 66], [67]], .eof, false⟩ [.t, .t, .s, .s]))).udp = [[65], [66, 67]] ∧
+    (udpObsV (udpRun .repaired ⟨[], .hold, [[0, 1, 65, 0, 2, 66], [67]], .eof, false⟩ [.t, .t, .s])).udp = [[65]] := by decide
 
 /-- `holdsUdp` is not trivially true: a relay that dropped the datagram before the cut fails it. -/
 example : holdsUdp ⟨[], .hold, [[97]], 3, [], .eof, false⟩ ⟨true, [], [], 0, false, false, 0, 0⟩ = false := by decide
